@@ -251,6 +251,11 @@ def run_supp(res: Result, seed: int) -> None:
             await sim.sleep_ms(rng.choice([0, 10, 1500]))
             qt = {None: None, "QU": DNSQuestionType.QU, "QM": DNSQuestionType.QM}[forced]
             out["mark"] = len(sim.net.trace)
+            out["send_cache"] = {}
+
+            def on_tx(entry: Dict[str, Any]) -> None:
+                out["send_cache"][entry["i"]] = [(R.ident_of_lib(r), r.created, r.ttl) for r in zc.cache.entries_with_name(T)]
+            sim.net.on_transmit = on_tx
             B = sim.now_ms()
             out["B"] = B
             b1 = AsyncServiceBrowser(zc, T, listener=L(), delay=10000, question_type=qt)
@@ -288,6 +293,22 @@ def run_supp(res: Result, seed: int) -> None:
             return
         for esc in sim.net.escapes[:1]:
             viol("c13.suppression", "loop_exception", repr(esc)[:800])
+        # whatever another asker listed, a query of this instance lists exactly what this instance holds with more than half
+        # of its TTL left (snapshot of the cache taken at the send instant)
+        for e in sim.net.trace[out["mark"]:]:
+            snap = out["send_cache"].get(e["i"])
+            m, _ = wire.try_parse(e["data"], strict=True)
+            if snap is None or m is None or m.is_response or e["host"] != "H":
+                continue
+            if not any(q.type == 12 and q.name.text() == T for q in m.questions):
+                continue
+            res.mon("c13.known_answers")
+            want = {i for (i, created, ttl) in snap if i[0] == "PTR" and created + 500.0 * ttl > e["t"]}
+            got = {R.ident_of_wire(r) for r in m.answers}
+            if got != want:
+                viol("c13.known_answers", "known_answers_differ_with_other_asker", "query at +%.0f ms lists %r but the cache holds (more than half TTL left) %r" % (
+                    e["t"] - out["B"], sorted(got - want, key=repr)[:2] or sorted(want - got, key=repr)[:2], len(want)),
+                    direction="extra" if got - want else "missing")
         analyse_supp(res, sim, desc, out, cached, viol)
     if res.evaluations % 23 == 2:
         res.sample(desc)
